@@ -135,10 +135,11 @@ class HTTPFile(io.IOBase):
             stop = min((index+1)*self._chunk_size, self.length)
             self.cache[index] = self.download_range(start, stop)
         if len(self.cache) > self._keep_chunks:
-            for kk in self.cache.keys():
-                if kk != 0:  # always keep the first chunk
-                    self.cache.pop(kk)
-                    break
+            # never evict the requested chunk
+            candidates = [kk for kk in self.cache.keys() if kk != index]
+            # keep the first chunk if possible
+            evict = [kk for kk in candidates if kk != 0] or candidates
+            self.cache.pop(evict[0])
         return self.cache[index]
 
     def read(self, size=-1, /):
